@@ -2,7 +2,7 @@
    a case is an operation name and a list of generic arguments; the answer is a generic
    output value.  The OCaml driver (eval/driver.ml) only parses / prints these types. *)
 From Coq Require Import String.
-From ArrRs Require Import Base Arr Index Axis Broadcast Lift Split Reduce Sort Join Reorder Edit Bits Linalg Create.
+From ArrRs Require Import Base Arr Index Axis Broadcast Lift Split Reduce Sort Join Reorder Edit Bits Linalg Create Str.
 From Coq Require QArith.
 Open Scope string_scope.
 Open Scope list_scope.
@@ -26,6 +26,7 @@ Inductive out :=
 | OPanic
 | OFuel
 | OPArr (sh : list nat) (es : list (Z * Z))
+| OLArr (sh : list nat) (es : list (list (list Z)))
 | OList (l : list out)
 | OBad.                                        (* malformed case line / unknown op *)
 
@@ -479,9 +480,82 @@ Definition table_create : list (string * (list arg -> out)) :=
        | _ => OBad end)
   ].
 
+(* ---- C17: string arrays ---- *)
+Definition mksa (sh : list Z) (es : list (list Z)) : arr str := mk es (nats sh).
+Definition mkna (sh es : list Z) : arr nat := mk (nats es) (nats sh).
+Definition osarr (a : arr str) : out := OSArr (shape a) (elems a).
+Definition olarr (a : arr (list str)) : out := OLArr (shape a) (elems a).
+Definition obarr (a : arr bool) : out := OArr (shape a) (map (fun b : bool => if b then 1%Z else 0%Z) (elems a)).
+Definition oiarr (a : arr Z) : out := OArr (shape a) (elems a).
+Definition optsa (a : arg) : option (option (arr str)) :=
+  match a with AN => Some None | ASA sh es => Some (Some (mksa sh es)) | _ => None end.
+Definition optna (a : arg) : option (option (arr nat)) :=
+  match a with AN => Some None | AA sh es => Some (Some (mkna sh es)) | _ => None end.
+
+Definition ss2 {U} (f : str -> str -> U) (o : arr U -> out) (args : list arg) : out :=
+  match args with [ASA s1 e1; ASA s2 e2] => out_res o (str_lift2 f (mksa s1 e1) (mksa s2 e2)) | _ => OBad end.
+Definition ss1 {U} (f : str -> U) (o : arr U -> out) (args : list arg) : out :=
+  match args with [ASA s1 e1] => out_res o (str_map f (mksa s1 e1)) | _ => OBad end.
+Definition zfind (r : option nat) : Z := match r with Some i => Z.of_nat i | None => (-1)%Z end.
+Definition fill_of (a : arg) : option (arr Z) :=
+  match a with AN => Some (mk [32%Z] [1]) | AA sh es => Some (mka sh es) | _ => None end.
+
+Definition table_str : list (string * (list arg -> out)) :=
+  [ ("s_add", ss2 s_append osarr); ("s_join", ss2 s_join osarr)
+  ; ("s_partition", ss2 s_partition olarr); ("s_rpartition", ss2 s_rpartition olarr)
+  ; ("s_count", ss2 (fun a b => Z.of_nat (count_str a b)) oiarr)
+  ; ("s_starts_with", ss2 starts_with obarr); ("s_ends_with", ss2 ends_with obarr)
+  ; ("s_find", ss2 (fun a b => zfind (find a b)) oiarr); ("s_index", ss2 (fun a b => zfind (find a b)) oiarr)
+  ; ("s_rfind", ss2 (fun a b => zfind (rfind a b)) oiarr); ("s_rindex", ss2 (fun a b => zfind (rfind a b)) oiarr)
+  ; ("s_equal", ss2 s_equal obarr); ("s_not_equal", ss2 s_not_equal obarr); ("s_less", ss2 s_less obarr)
+  ; ("s_less_equal", ss2 s_less_equal obarr); ("s_greater", ss2 s_greater obarr); ("s_greater_equal", ss2 s_greater_equal obarr)
+  ; ("s_capitalize", ss1 s_capitalize osarr); ("s_lower", ss1 s_lower osarr); ("s_upper", ss1 s_upper osarr)
+  ; ("s_swapcase", ss1 s_swapcase osarr); ("s_str_len", ss1 (fun a => Z.of_nat (List.length a)) oiarr)
+  ; ("s_is_alpha", ss1 (nonempty_all is_alpha_c) obarr); ("s_is_alnum", ss1 (nonempty_all is_alnum_c) obarr)
+  ; ("s_is_decimal", ss1 (nonempty_all is_digit_c) obarr); ("s_is_numeric", ss1 (nonempty_all is_digit_c) obarr)
+  ; ("s_is_digit", ss1 s_is_digit obarr); ("s_is_space", ss1 (nonempty_all is_space_c) obarr)
+  ; ("s_is_lower", ss1 s_is_lower obarr); ("s_is_upper", ss1 s_is_upper obarr)
+  ; ("s_lstrip", fun args => match args with
+       | [ASA s e; c] => match optsa c with Some c => out_res osarr (str_strip2 s_lstrip (mksa s e) c) | None => OBad end
+       | _ => OBad end)
+  ; ("s_rstrip", fun args => match args with
+       | [ASA s e; c] => match optsa c with Some c => out_res osarr (str_strip2 s_rstrip (mksa s e) c) | None => OBad end
+       | _ => OBad end)
+  ; ("s_strip", fun args => match args with
+       | [ASA s e; c] => match optsa c with Some c => out_res osarr (str_strip (mksa s e) c) | None => OBad end
+       | _ => OBad end)
+  ; ("s_multiply", fun args => match args with
+       | [ASA s e; AA s2 e2] => out_res osarr (str_h2 0 s_multiply (mksa s e) (mkna s2 e2)) | _ => OBad end)
+  ; ("s_splitlines", fun args => match args with
+       | [ASA s e; AN] => out_res olarr (str_h2 false s_splitlines (mksa s e) (mk [false] [1]))
+       | [ASA s e; AA s2 e2] => out_res olarr (str_h2 false s_splitlines (mksa s e) (mk (map (fun z => negb (z =? 0)%Z) e2) (nats s2)))
+       | _ => OBad end)
+  ; ("s_center", fun args => match args with
+       | [ASA s e; AA s2 e2; f] => match fill_of f with Some f => out_res osarr (str_pad3 s_center (mksa s e) (mkna s2 e2) f) | None => OBad end
+       | _ => OBad end)
+  ; ("s_ljust", fun args => match args with
+       | [ASA s e; AA s2 e2; f] => match fill_of f with Some f => out_res osarr (str_pad3 s_ljust (mksa s e) (mkna s2 e2) f) | None => OBad end
+       | _ => OBad end)
+  ; ("s_rjust", fun args => match args with
+       | [ASA s e; AA s2 e2; f] => match fill_of f with Some f => out_res osarr (str_rjust (mksa s e) (mkna s2 e2) f) | None => OBad end
+       | _ => OBad end)
+  ; ("s_split", fun args => match args with
+       | [ASA s e; sep; lim] => match optsa sep, optna lim with
+           | Some sep, Some lim => out_res olarr (str_split false (mksa s e) sep lim) | _, _ => OBad end
+       | _ => OBad end)
+  ; ("s_rsplit", fun args => match args with
+       | [ASA s e; sep; lim] => match optsa sep, optna lim with
+           | Some sep, Some lim => out_res olarr (str_split true (mksa s e) sep lim) | _, _ => OBad end
+       | _ => OBad end)
+  ; ("s_replace", fun args => match args with
+       | [ASA s e; ASA s2 e2; ASA s3 e3; c] => match optn c with
+           | Some c => out_res osarr (str_replace (mksa s e) (mksa s2 e2) (mksa s3 e3) c) | None => OBad end
+       | _ => OBad end)
+  ].
+
 Definition table : list (string * (list arg -> out)) :=
   table_index ++ table_axis ++ table_broadcast ++ table_ew2 ++ table_ew1 ++ table_ops ++ table_reduce ++ table_sort
-  ++ table_join ++ table_reorder ++ table_edit ++ table_bits ++ table_linalg ++ table_create.
+  ++ table_join ++ table_reorder ++ table_edit ++ table_bits ++ table_linalg ++ table_create ++ table_str.
 
 Fixpoint lookup (name : string) (t : list (string * (list arg -> out))) : option (list arg -> out) :=
   match t with
